@@ -181,7 +181,12 @@ pub fn create_presentation(
 
     // cl signatures generates sub proofs and aggregated at once at the end
     // so we need to iterate over credentials again an put sub proofs into their proofs
-    for (present, sub_proof) in credentials.0.iter().zip(cl_proof.proofs) {
+    for (present, sub_proof) in credentials
+        .0
+        .iter()
+        .filter(|present| !present.is_empty())
+        .zip(cl_proof.proofs)
+    {
         let credential_attributes = build_credential_attributes(presentation_request, present)?;
         let credential_proof = present.cred.get_credential_signature_proof()?;
         let proof = CredentialPresentationProofValue {
